@@ -243,6 +243,7 @@ End Batching.
 
 Arguments mkOp {W R}.
 Arguments init_op {W R}.
+Arguments batching {W R}. Arguments dup {W R}. Arguments pend {W R}. Arguments wb {W R}.
 
 (* ------------------------------------------------------------------------------------------
    The instance run by the correspondence check ("journal"): the store is the list of request
